@@ -315,6 +315,17 @@ class NpMixin:
                 for (a0, a1), (b0, b1) in zip(dv, dt):
                     self.emit(st, "shape", "L%d" % node.lineno, (a1 - a0) == (b1 - b0), node, "slice extents agree")
             val = self.sview_elem(v, pos, st_with(st, arr.cell, before))
+        elif isinstance(v, tuple) and v and v[0] == "lazyval":
+            lz = v[1]
+            if not self.spec:
+                dt_ = [(ax[1], ax[2]) for ax in axes if ax[0] == "s"]
+                if len(lz.shape) != len(dt_):
+                    raise Unsupported("slice assignment rank mismatch (line %d)" % node.lineno)
+                for s_l, (b0, b1) in zip(lz.shape, dt_):
+                    self.emit(st, "shape", "L%d" % node.lineno, zi(s_l) == (b1 - b0), node, "assigned array has the extent of the slice")
+            val = lz.get(pos, st_with(st, arr.cell, before))
+            if arr.dt == "i" and not self.spec and getattr(arr, "irange", None):
+                pass
         elif isinstance(v, SArr):
             val = array_read(st_with(st, arr.cell, before), v, pos)
         else:
